@@ -699,6 +699,15 @@ def rule_optflow3(ctx: Ctx) -> RuleResult:
     rr.instances += 1
     tests = [n for n in walk_no_nested(va.node) if isinstance(n, ast.Compare) and isinstance(n.ops[0], ast.NotIn)
              and "MODEL_CMP_MAPPING" in norm(n.comparators[0])]
+    # `TABLE.get(k) is None` asks the same when no entry of the table is None (a class-level dict display of comparator classes)
+    cli_cls = ctx.prog.cls(CLI, "Cli")
+    tbl = cli_cls.assigns.get("MODEL_CMP_MAPPING") if hasattr(cli_cls, "assigns") else None
+    no_none = isinstance(tbl, ast.Dict) and not any(isinstance(v, ast.Constant) and v.value is None for v in tbl.values)
+    if no_none:
+        tests += [n for n in walk_no_nested(va.node) if isinstance(n, ast.Compare) and len(n.ops) == 1 and isinstance(n.ops[0], ast.Is)
+                  and isinstance(n.comparators[0], ast.Constant) and n.comparators[0].value is None and isinstance(n.left, ast.Call)
+                  and isinstance(n.left.func, ast.Attribute) and n.left.func.attr == "get" and len(n.left.args) == 1
+                  and "MODEL_CMP_MAPPING" in norm(n.left.func.value)]
     raises = [n for n in walk_no_nested(va.node) if isinstance(n, ast.Raise)]
     order_ok = False
     calls = {}
